@@ -10,7 +10,8 @@ Local Open Scope Z_scope.
 Record shrinks (h h' : heap) : Prop := mk_shrinks {
   sh_wins : forall a c', findw h' a = Some c' ->
     exists c, findw h a = Some c /\ (w_parent c' = w_parent c \/ w_parent c' = None);
-  sh_reqs : forall q cq, findq h' q = Some cq -> exists cq0, findq h q = Some cq0 /\ q_win cq = q_win cq0
+  sh_reqs : forall q cq, findq h' q = Some cq -> exists cq0, findq h q = Some cq0 /\ q_win cq = q_win cq0;
+  sh_nextw : nextw h' = nextw h
 }.
 
 Lemma shrinks_refl : forall h, shrinks h h.
@@ -18,7 +19,7 @@ Proof. intro h. constructor; eauto. Qed.
 
 Lemma shrinks_trans : forall h1 h2 h3, shrinks h1 h2 -> shrinks h2 h3 -> shrinks h1 h3.
 Proof.
-  intros h1 h2 h3 [W1 Q1] [W2 Q2]. constructor.
+  intros h1 h2 h3 [W1 Q1 N1] [W2 Q2 N2]. constructor; [| |congruence].
   - intros a c3 H3. destruct (W2 a c3 H3) as [c2 [H2 Hp2]]. destruct (W1 a c2 H2) as [c1 [H1 Hp1]].
     exists c1. split; auto. destruct Hp2 as [E|E]; [rewrite E; auto | auto].
   - intros q c3 H3. destruct (Q2 q c3 H3) as [c2 [H2 E2]]. destruct (Q1 q c2 H2) as [c1 [H1 E1]].
@@ -40,7 +41,8 @@ Record keeps (h h' : heap) : Prop := mk_keeps {
                w_ref c' = w_ref c /\ w_isroot c' = w_isroot c;
   kp_dom : forall a, findw h a = None -> findw h' a = None;
   kp_reqs : forall q, findq h' q = findq h q;
-  kp_queue : r_queue (rx h') = r_queue (rx h)
+  kp_queue : r_queue (rx h') = r_queue (rx h);
+  kp_nextw : nextw h' = nextw h
 }.
 
 Lemma keeps_refl : forall h, keeps h h.
@@ -48,7 +50,7 @@ Proof. intro h. constructor; eauto 10. Qed.
 
 Lemma keeps_trans : forall h1 h2 h3, keeps h1 h2 -> keeps h2 h3 -> keeps h1 h3.
 Proof.
-  intros h1 h2 h3 [W1 D1 Q1 U1] [W2 D2 Q2 U2]. constructor; auto; try congruence.
+  intros h1 h2 h3 [W1 D1 Q1 U1 N1] [W2 D2 Q2 U2 N2]. constructor; auto; try congruence.
   - intros a c1 H1. destruct (W1 a c1 H1) as [c2 [H2 [Hp2 [Hr2 Hi2]]]].
     destruct (W2 a c2 H2) as [c3 [H3 [Hp3 [Hr3 Hi3]]]]. exists c3. split; auto. split; [|split; congruence].
     destruct Hp3 as [E|E]; [rewrite E; auto | auto].
@@ -56,7 +58,7 @@ Qed.
 
 Lemma keeps_shrinks : forall h h', keeps h h' -> shrinks h h'.
 Proof.
-  intros h h' [W Dm Q U]. constructor.
+  intros h h' [W Dm Q U N]. constructor; [| |exact N].
   - intros a c' Hf'. destruct (findw h a) as [c|] eqn:Hf.
     + destruct (W a c Hf) as [c1 [H1 [Hp _]]]. rewrite Hf' in H1. inversion H1; subst c1. eauto.
     + rewrite (Dm a Hf) in Hf'. discriminate.
@@ -65,7 +67,7 @@ Qed.
 
 Lemma rx_only_keeps : forall h h', rx_only h h' -> keeps h h'.
 Proof.
-  intros h h' R. destruct R as [Hw [Hq [H1 _]]].
+  intros h h' R. destruct R as [Hw [Hq [H1 [_ [Hnw _]]]]].
   constructor; auto.
   - intros a c Hf. exists c. unfold findw in *. rewrite Hw. auto.
   - intros a Hf. unfold findw in *. rewrite Hw. exact Hf.
@@ -82,6 +84,7 @@ Proof.
   - intros a Hf. apply (cells_by_none h h' F a CB). exact Hf.
   - apply (cb_reqs h h' F CB).
   - apply (cb_queue h h' F CB).
+  - apply (cb_nextw h h' F CB).
 Qed.
 
 Lemma keeps_detached : forall h h' D, keeps h h' -> detached h D -> detached h' D.
